@@ -210,7 +210,10 @@ class World:
                 import copy as _c
                 import sys as _s
 
-                if self.rep_kind not in ("ge", "sge", "stack"):
+                # (not for the stack representation: its mapping loop only ends when the starting symbol's
+                # stack fills or after 100 "failures", and a short periodic genotype that keeps pushing
+                # terminals does neither - a non-termination outside the listed properties, see DESIGN 8.2)
+                if self.rep_kind not in ("ge", "sge"):
                     self.skipped += 1
                     return None
                 v = [0, 0, 1, _s.maxsize - 1, _s.maxsize, 0][op[2] % 6]
